@@ -2,9 +2,15 @@
 
 Caches with inline and file-backed items (Cache, and the shards of a FanoutCache) are damaged behind the
 library's back by every subset (thorough) / a seeded sample (quick) of
-  {delete a value file, truncate one, extend one, add a file at depth 0 / 1 / 2, add an empty directory at
-   depth 1 / 2, bump Settings.count, bump Settings.size}
-(added files and directories go to fresh or to existing directories, chosen per case).  Further families:
+  {delete a value file, truncate one (to 13 bytes, or to exactly 0 bytes: variant trunc=0 / target kind 'zero'), extend one,
+   add a file at depth 0 / 1 / 2, add an empty directory at depth 1 / 2, bump Settings.count, bump Settings.size}
+(added files and directories go to fresh or to existing directories, chosen per case).  Two further dimensions apply to every
+cache kind and every damage kind:
+  * variant relative=True: the cache is opened on a directory given RELATIVE to the current working directory (the harness
+    changes into the case's scratch directory for the duration of the case and restores the working directory afterwards);
+  * variant min_file_size=0: the cache is opened with disk_min_file_size=0, every str / bytes / pickled value lives in a file, and the
+    cache holds three UNDAMAGED items whose value file is legitimately empty (b'', '' and an empty read=True stream).
+Further families:
   * FanoutCache with 8 shards and the FanoutCache behind a DjangoCache (SHARDS=8, items written and read through the Django API)
     whose 11 items leave some shards without any item: added files / directories / counter changes are placed in a shard that
     holds NO item (variant home='empty') as well as in shards that do;
@@ -27,8 +33,10 @@ CORRESPONDENCE: the damaged state (rows, counters, tree) is encoded into model/C
 plain run, the fixing run and the second run (fw.coq_mismatches).
 """
 import hashlib
+import io
 import itertools
 import os
+import random
 import re
 import shutil
 import sqlite3
@@ -51,7 +59,8 @@ ASSUMPTIONS = [
     'the database file itself is intact (PRAGMA integrity_check / VACUUM are outside the model) and the write lock can be taken',
     'rowids are unique (INTEGER PRIMARY KEY); keys are not NULL',
     'directory tree of depth <= 2 below the cache directory (the layout Disk.filename produces), no symbolic links',
-    'readable = the row resolves to a file of the recorded size; check() compares sizes only, so a truncated pickle or UTF-8 file stays undecodable after the repair (the harness truncates/extends raw binary and ASCII text files, whose every prefix/extension decodes)',
+    'readable = the row resolves to a file of the recorded size; check() compares sizes only, so a truncated pickle or UTF-8 file stays undecodable after the repair (the harness truncates/extends raw binary and ASCII text files, whose every prefix/extension -- including the empty one, truncation to 0 bytes -- decodes)',
+    'cache directories are given as absolute paths or as paths relative to the working directory (variant relative=True: one path component, the working directory does not change between opening the cache and the last check); disk_min_file_size is 16 or 0 (variant min_file_size=0: value files of length 0 that belong to undamaged items)',
     'no concurrent writer while check() runs',
     'DjangoCache has no check() of its own: the DjangoCache-backed cases call check() of the FanoutCache object it delegates every call to (DjangoCache._cache)',
 ]
@@ -69,6 +78,39 @@ ITEMS = [
     ('fs', 's' * 17),
 ]
 TARGET = {'delete': 'fd', 'truncate': 'ft', 'extend': 'fe'}
+FILE_KINDS = ('delete', 'truncate', 'zero', 'extend')      # 'zero' = truncate to exactly 0 bytes
+TRUNC_LEN = 13
+
+
+class ByteStream(bytes):
+    """an item value that is stored from a binary stream (set(key, stream, read=True)); it reads back as plain bytes"""
+
+
+# with disk_min_file_size=0 these are file-backed, and their value files are legitimately empty
+EMPTY_ITEMS = [('eb', b''), ('et', ''), ('es', ByteStream(b''))]
+
+
+def expected(v):
+    return bytes(v) if isinstance(v, ByteStream) else v
+
+
+def put(c, k, v):
+    if isinstance(v, ByteStream):
+        c.set(k, io.BytesIO(bytes(v)), read=True)
+    else:
+        c[k] = v
+
+
+def var_mfs(variant):
+    return variant.get('min_file_size', MIN_FILE)
+
+
+def file_damage(kind, damage, variant):
+    """the damage done to value files: list of (file damage kind, item)"""
+    todo = [(k, TARGET[k]) for k in damage if k in TARGET and ':' not in kind]
+    if variant.get('trunc', TRUNC_LEN) == 0:
+        todo = [('zero', key) if k == 'truncate' else (k, key) for k, key in todo]
+    return todo + [(k, key) for k, key in variant.get('targets', [])]
 WKIND = {1: 'wrong_size', 2: 'not_found', 3: 'unknown_file', 4: 'empty_dir', 5: 'count', 6: 'size', 9: 'other'}
 
 
@@ -90,12 +132,13 @@ def kind_shards(kind):
     return {'cache': 0, 'fanout': 2, 'fanout8': SPARSE, 'django': SPARSE}[kind_base(kind)]
 
 
-def kind_items(kind):
+def kind_items(kind, mfs=MIN_FILE):
+    extra = EMPTY_ITEMS if mfs == 0 else []
     if ':' not in kind:
-        return ITEMS
+        return ITEMS + extra
     n = int(kind.split(':')[1])
     # raw binary and ASCII text, whose every prefix / extension decodes (see ASSUMPTIONS)
-    return [('L%03d' % i, (b'B%03d' % i) * 10 if i % 2 else ('T%03d' % i) * 10) for i in range(n)] + [('s1', 7), ('s2', 'ab')]
+    return [('L%03d' % i, (b'B%03d' % i) * 10 if i % 2 else ('T%03d' % i) * 10) for i in range(n)] + [('s1', 7), ('s2', 'ab')] + extra
 
 
 def anchor_key(kind):
@@ -108,15 +151,18 @@ class DjangoHandle:
     FanoutCache that DjangoCache delegates every call to."""
     MISSING = object()
 
-    def __init__(self, d):
+    def __init__(self, d, mfs=MIN_FILE):
         from django.conf import settings
         if not settings.configured:
             settings.configure()
         from diskcache.djangocache import DjangoCache
-        self.dj = DjangoCache(d, {'SHARDS': SPARSE, 'DATABASE_TIMEOUT': 60, 'OPTIONS': {'disk_min_file_size': MIN_FILE, 'eviction_policy': 'none'}})
+        self.dj = DjangoCache(d, {'SHARDS': SPARSE, 'DATABASE_TIMEOUT': 60, 'OPTIONS': {'disk_min_file_size': mfs, 'eviction_policy': 'none'}})
 
     def __setitem__(self, k, v):
         self.dj.set(k, v, timeout=None)
+
+    def set(self, k, v, read=False):
+        self.dj.set(k, v, timeout=None, read=read)
 
     def __getitem__(self, k):
         v = self.dj.get(k, default=self.MISSING)
@@ -134,13 +180,13 @@ class DjangoHandle:
         self.dj.close()
 
 
-def open_cache(kind, d):
+def open_cache(kind, d, mfs=MIN_FILE):
     n = kind_shards(kind)
     if kind == 'django':
-        return DjangoHandle(d)
+        return DjangoHandle(d, mfs)
     if n == 0:
-        return diskcache.Cache(d, disk_min_file_size=MIN_FILE, eviction_policy='none')
-    return diskcache.FanoutCache(d, shards=n, disk_min_file_size=MIN_FILE, eviction_policy='none')
+        return diskcache.Cache(d, disk_min_file_size=mfs, eviction_policy='none')
+    return diskcache.FanoutCache(d, shards=n, disk_min_file_size=mfs, eviction_policy='none')
 
 
 def shard_dirs(kind, d):
@@ -155,11 +201,11 @@ def item_of_row(kind, rawkey):
     return rawkey
 
 
-def build_template(ctx, kind):
+def build_template(ctx, kind, mfs=MIN_FILE):
     d = os.path.join(ctx.scratch('c17tmpl'), 'c')
-    c = open_cache(kind, d)
-    for k, v in kind_items(kind):
-        c[k] = v
+    c = open_cache(kind, d, mfs)
+    for k, v in kind_items(kind, mfs):
+        put(c, k, v)
     c.close()
     for sd in shard_dirs(kind, d):
         con = sqlite3.connect(os.path.join(sd, 'cache.db'))
@@ -223,17 +269,17 @@ def apply_damage(kind, d, damage, variant):
         empty = [sd for sd in shard_dirs(kind, d) if not observe(sd)['rows']]
         home = empty[variant.get('home_index', 0) % len(empty)]
         variant = dict(variant, add1='new', add2='new', dir2='new')
-    todo = [(k, TARGET[k]) if k in TARGET else (k, None) for k in damage if ':' not in kind or k not in TARGET]
-    todo += [(k, key) for k, key in variant.get('targets', [])]
+    todo = (file_damage(kind, damage, dict(variant, targets=[])) + [(k, None) for k in damage if k not in TARGET]
+            + [(k, key) for k, key in variant.get('targets', [])])
     for k, tkey in todo:
-        if k in TARGET:
+        if k in FILE_KINDS:
             sd, fn = find_row(kind, d, tkey)
             p = os.path.join(sd, fn)
             if k == 'delete':
                 os.remove(p)
-            elif k == 'truncate':
+            elif k in ('truncate', 'zero'):
                 with open(p, 'r+b') as f:
-                    f.truncate(13)
+                    f.truncate(0 if k == 'zero' else variant.get('trunc', TRUNC_LEN))
             else:
                 with open(p, 'ab') as f:
                     f.write(b'E' * 9)
@@ -361,15 +407,27 @@ def run_check(c, fix):
 
 
 def execute(kind, template, damage, variant, workdir):
-    """Returns (record for monitor/correspondence).  Everything observable is collected here."""
-    d = os.path.join(workdir, 'c')
-    shutil.copytree(template, d)
+    """Returns (record for monitor/correspondence).  Everything observable is collected here.
+    variant relative=True: the working directory is the case's scratch directory while the cache is damaged, opened on the
+    relative path 'c', checked and read; it is restored afterwards."""
+    shutil.copytree(template, os.path.join(workdir, 'c'))
+    if not variant.get('relative'):
+        return execute_in(kind, os.path.join(workdir, 'c'), damage, variant)
+    cwd = os.getcwd()
+    os.chdir(workdir)
+    try:
+        return execute_in(kind, 'c', damage, variant)
+    finally:
+        os.chdir(cwd)
+
+
+def execute_in(kind, d, damage, variant):
+    mfs = var_mfs(variant)
     log = apply_damage(kind, d, damage, variant)
     sds = shard_dirs(kind, d)
-    c = open_cache(kind, d)
-    rec = {'kind': kind, 'damage': list(damage), 'variant': dict(variant), 'log': log, 'dir': d, 'items': kind_items(kind)}
-    rec['targets'] = {TARGET[k]: k for k in damage if k in TARGET and ':' not in kind}
-    rec['targets'].update({key: k for k, key in variant.get('targets', [])})
+    c = open_cache(kind, d, mfs)
+    rec = {'kind': kind, 'damage': list(damage), 'variant': dict(variant), 'log': log, 'dir': d, 'items': kind_items(kind, mfs)}
+    rec['targets'] = {key: k for k, key in file_damage(kind, damage, variant)}
     try:
         rec['obs0'] = [observe(sd) for sd in sds]
         rec['plain'] = parse_warnings(run_check(c, False), kind, d)
@@ -483,7 +541,7 @@ def monitor(rec):
     # items
     targets = rec['targets']
     damaged = set(targets)
-    orig = dict(rec['items'])
+    orig = {k: expected(x) for k, x in rec['items']}
     seen_sigs = set()
     for k, (st, got) in rec['reads'].items():
         if k in damaged:
@@ -661,7 +719,7 @@ def all_cases(ctx, thorough):
                 cases.append(('fanout' if kind == 'cache' else 'cache', sub, va))
             else:
                 cases.append((kind, sub, dict({k: rng.choice(['new', 'old']) for k in placed}, sign=rng.choice(['up', 'down']))))
-    return cases + sparse_cases(ctx, thorough) + large_cases(ctx, thorough)
+    return mix_dimensions(ctx, cases + sparse_cases(ctx, thorough) + large_cases(ctx, thorough)) + dimension_cases(ctx, thorough)
 
 
 STRAY = ['add0', 'add1', 'add2', 'dir1', 'dir2']
@@ -714,6 +772,67 @@ def large_cases(ctx, thorough):
     return cases
 
 
+def mix_dimensions(ctx, cases):
+    """The general families above, with the two input dimensions that do not depend on the damage subset mixed in by a generator
+    of their own (so the subsets, placements and targets drawn from ctx.rng stay what they were): about a third of the cases
+    run on a cwd-relative cache directory, and about half of the truncations (subset member 'truncate' -> variant trunc=0,
+    explicit target 'truncate' -> 'zero') cut the value file to exactly 0 bytes."""
+    rng = random.Random(ctx.seed * 7919 + 17)
+    out = []
+    for kind, sub, var in cases:
+        var = dict(var)
+        if rng.random() < 0.34:
+            var['relative'] = True
+        if 'truncate' in sub and ':' not in kind and rng.random() < 0.5:
+            var['trunc'] = 0
+        if var.get('targets'):
+            var['targets'] = [['zero', k] if t == 'truncate' and rng.random() < 0.5 else [t, k] for t, k in var['targets']]
+        out.append((kind, sub, var))
+    return out
+
+
+def dimension_cases(ctx, thorough):
+    """Directed coverage of: cache directory relative to the working directory; disk_min_file_size=0 with undamaged items whose value
+    file is legitimately empty; truncation to exactly 0 bytes -- alone and combined, for every damage kind alone, none, all, and
+    random subsets, on Cache and FanoutCache; plus the sparse (8 shards / DjangoCache-backed) and the many-rows caches."""
+    rng = random.Random(ctx.seed * 7919 + 23)
+    placed = ('add1', 'add2', 'dir2')
+    va = dict({k: 'new' for k in placed}, sign='up')
+    vb = dict({k: 'old' for k in placed}, sign='down')
+    cases = []
+
+    def rnd_var(**dims):
+        return dict({k: rng.choice(['new', 'old']) for k in placed}, sign=rng.choice(['up', 'down', 'zero']), trunc=rng.choice([0, TRUNC_LEN]), **dims)
+    for kind in ('cache', 'fanout'):
+        for dims in ({'relative': True}, {'min_file_size': 0}, {'relative': True, 'min_file_size': 0}):
+            cases.append((kind, (), dict(va, **dims)))
+            cases.append((kind, tuple(KINDS), dict(va, trunc=0, **dims)))
+            cases.append((kind, tuple(KINDS), dict(vb, **dims)))
+            singles = [(k, t) for k in KINDS for t in ((TRUNC_LEN, 0) if k == 'truncate' else (TRUNC_LEN,))]
+            if len(dims) == 2 and not thorough:
+                singles = rng.sample(singles, 4)
+            for k, t in singles:
+                cases.append((kind, (k,), dict(va if rng.random() < 0.5 else vb, trunc=t, **dims)))
+            for _ in range(60 if thorough else 3):
+                cases.append((kind, tuple(k for k in KINDS if rng.random() < 0.45), rnd_var(**dims)))
+    for kind in ('cache', 'fanout', 'fanout8', 'django'):
+        cases.append((kind, ('truncate',), dict(va, trunc=0)))
+        cases.append((kind, tuple(KINDS), dict(vb, trunc=0)))
+    for kind in ('fanout8', 'django'):
+        cases.append((kind, tuple(KINDS), dict(va, relative=True, trunc=0, home='empty', home_index=1)))
+        cases.append((kind, tuple(STRAY), dict(va, relative=True, home='empty', home_index=rng.randrange(8))))
+        cases.append((kind, tuple(KINDS), dict(vb, min_file_size=0, trunc=0)))
+        cases.append((kind, tuple(k for k in KINDS if rng.random() < 0.5), rnd_var(relative=True, min_file_size=0)))
+    for kind, dims in [('cache:150', {'relative': True}), ('cache:150', {'relative': True, 'min_file_size': 0})] + (
+            [('fanout:260', {'relative': True}), ('cache:230', {'min_file_size': 0})] if thorough else []):
+        names = [k for k, v in kind_items(kind) if k.startswith('L') and k != anchor_key(kind)]
+        picks = rng.sample(names, 8)
+        targets = ([['delete', k] for k in picks[:3]] + [['zero', k] for k in picks[3:5]] + [['truncate', picks[5]]] + [['extend', k] for k in picks[6:]])
+        cases.append((kind, tuple(k for k in STRAY + ['count', 'size'] if rng.random() < 0.4),
+                      dict(rnd_var(**dims), targets=sorted(targets, key=lambda t: t[1]))))
+    return cases
+
+
 def witness_d16():
     """Regression witness of D16 (fixed): a stray file two levels down.  check(fix=True) must remove it together with
     the directories this empties, so that the second check() is empty.  Returns (ok, first, second)."""
@@ -757,13 +876,18 @@ def run(ctx, big=False, model=True):
                 'WITHOUT items (each kind alone, all together, random subsets) or in one with items; Settings.count / size zeroed out of band on every '
                 'cache kind; caches with 150 / 230 (Cache) and 260 (FanoutCache, 2 shards) file-backed items, i.e. more than one page of 100 rows, with '
                 '1-12 value files deleted in early pages and files deleted / truncated / extended in later pages, alone or with other damage kinds.  '
-                'non-trivial = at least one damage kind; distinct = distinct (cache kind, subset, placement, damaged items).')
+                'Two further input dimensions on every cache kind and damage kind: the cache directory given relative to the working directory '
+                '(about a third of the cases above, seeded, and a directed family: no damage, every kind alone, all kinds, random subsets; 8-shard / '
+                'DjangoCache-backed caches with the damage in a shard without items; 150 file-backed rows); value files truncated to exactly 0 bytes '
+                '(about half of the truncations above and the directed family); caches opened with disk_min_file_size=0 holding three undamaged items whose '
+                'value files are legitimately empty (b\'\', \'\', an empty read=True stream), alone and combined with a relative directory.  '
+                'non-trivial = at least one damage kind; distinct = distinct (cache kind, subset, placement, damaged items, relative, truncation length, min file size).')
     check_witness(res)          # first, so that a regression of D16 is reported with this witness
     cases = all_cases(ctx, thorough)
-    tmpl = {k: build_template(ctx, k) for k in sorted(set(c[0] for c in cases))}
+    tmpl = {k: build_template(ctx, k[0], k[1]) for k in sorted(set((c[0], var_mfs(c[2])) for c in cases))}
     empty_shards = {}
-    for k, t in tmpl.items():
-        if kind_shards(k):
+    for (k, mfs), t in tmpl.items():
+        if kind_shards(k) and mfs == MIN_FILE:
             empty_shards[k] = sum(1 for sd in shard_dirs(k, t) if not observe(sd)['rows'])
     recs = []
     hist_kind = {k: 0 for k in KINDS}
@@ -775,7 +899,7 @@ def run(ctx, big=False, model=True):
         wd = os.path.join(work, 'w%d' % ci)
         os.makedirs(wd)
         try:
-            rec = execute(kind, tmpl[kind], sub, var, wd)
+            rec = execute(kind, tmpl[(kind, var_mfs(var))], sub, var, wd)
         except Exception as e:  # noqa
             import traceback
             res.violations.append(fw.Violation('check_raised:%s' % type(e).__name__, 'check() or the harness raised: ' + traceback.format_exc()[-600:],
@@ -784,7 +908,8 @@ def run(ctx, big=False, model=True):
             continue
         shutil.rmtree(wd, ignore_errors=True)
         res.count(['damage', kind, list(sub), sorted((k, v) for k, v in var.items() if k in sub or (k == 'sign' and ('count' in sub or 'size' in sub))
-                                                     or k in ('home', 'home_index', 'targets'))], nontrivial=bool(sub) or bool(var.get('targets')))
+                                                     or (k == 'trunc' and 'truncate' in sub)
+                                                     or k in ('home', 'home_index', 'targets', 'relative', 'min_file_size'))], nontrivial=bool(sub) or bool(var.get('targets')))
         for k in sub:
             hist_kind[k] += 1
         hist_n[len(sub)] = hist_n.get(len(sub), 0) + 1
@@ -801,7 +926,10 @@ def run(ctx, big=False, model=True):
         correspondence(ctx, res, recs)
     res.extra.update({'damage_kind_histogram': hist_kind, 'cases_by_number_of_damage_kinds': {str(k): v for k, v in sorted(hist_n.items())},
                       'warnings_of_fixing_run_by_kind': hist_warn, 'cases_showing_empty_parent_after_fix': n_d16,
-                      'cache_kinds': {k: sum(1 for c in cases if c[0] == k) for k in sorted(tmpl)},
+                      'cache_kinds': {k: sum(1 for c in cases if c[0] == k) for k in sorted(set(t[0] for t in tmpl))},
+                      'cases_on_a_relative_directory': sum(1 for c in cases if c[2].get('relative')),
+                      'cases_with_min_file_size_0_and_empty_value_files': sum(1 for c in cases if var_mfs(c[2]) == 0),
+                      'cases_with_a_file_truncated_to_0_bytes': sum(1 for r in recs if 'zero' in r['targets'].values()),
                       'shards_without_items_in_template': empty_shards,
                       'cases_with_damage_in_a_shard_without_items': sum(1 for c in cases if c[2].get('home') == 'empty'),
                       'cases_with_more_than_100_file_rows': sum(1 for c in cases if ':' in c[0]),
@@ -825,10 +953,11 @@ def replay(payload):
             def scratch(self, name=''):
                 return tempfile.mkdtemp(prefix=name + '-', dir=d)
         kind = case.get('kind', 'cache')
-        tmpl = build_template(C(), kind)
+        variant = case.get('variant', {})
+        tmpl = build_template(C(), kind, var_mfs(variant))
         wd = os.path.join(d, 'w')
         os.makedirs(wd)
-        rec = execute(kind, tmpl, case.get('damage', []), case.get('variant', {}), wd)
+        rec = execute(kind, tmpl, case.get('damage', []), variant, wd)     # honours variant relative / trunc / min_file_size
         vs = monitor(rec)
         print('damage %r (%s, placement %r)' % (case.get('damage'), kind, case.get('variant')))
         print('  plain check : %r' % (wkeys(rec['plain']),))
